@@ -271,3 +271,25 @@ Theorem c07_consistency :
   /\ (vo_outcome v <> NLeft -> vo_step_exit v = no_uuid /\ vo_segment v = None).
 Proof. exact consistency_spec. Qed.
 Print Assumptions c07_consistency.
+
+(* the operand logged with the segment: the router's operand text (switch), the draw (random), nothing for a timeout
+   resume or a node without router *)
+Theorem c07_segment_operand :
+  forall (value : Type) (eval_tpl : text -> value * (bool * nat)) (to_xtext : value -> option text)
+         (registered : test_id -> bool) (test : test_id -> value -> list value -> test_result value)
+         (lc : lctx) (max_result_chars : nat)
+         (site : call_site) (flow_nodes : list uuid) (nd : node) (is_timeout : bool) (d : draw) (timed_out_on : text)
+         (prev : option result) (ex : uuid) (op : text) (dest : uuid),
+  vo_segment (visit value eval_tpl to_xtext registered test lc max_result_chars site flow_nodes nd is_timeout d
+                    timed_out_on prev) = Some (ex, op, dest) ->
+  op = match n_router nd with
+       | None => []
+       | Some r =>
+           if is_timeout then []
+           else match r with
+                | Switch _ operand_tpl _ _ => operand_text value eval_tpl to_xtext operand_tpl
+                | Random _ => draw_text d
+                end
+       end.
+Proof. exact segment_operand_spec. Qed.
+Print Assumptions c07_segment_operand.
